@@ -70,8 +70,8 @@ Section Flags.
   Definition pure_here (e : expr) : Prop := forall tr, exists v, ev tr e = Some (tr, Val v).
   Definition sym_here (e : expr) : Prop := forall tr, exists id, ev tr e = Some (tr, Val (VSym id)).
   (* a call marked /* @__PURE__ */: the callee read and the call itself are free of effects *)
-  Definition pure_callee (callf : value -> list value -> nat -> trace * outcome) (t : expr) : Prop :=
-    forall tr, exists fv, ev tr t = Some (tr, Val fv) /\ forall vs n, exists r, callf fv vs n = ([], Val r).
+  Definition pure_callee (callf : value -> list value -> nat -> trace * outcome) (oc : Z) (t : expr) : Prop :=
+    forall tr, exists fv, eval_target W oc tr t = Some (tr, Val fv) /\ forall vs n, exists r, callf fv vs n = ([], Val r).
 
   Fixpoint flags_ok (e : expr) {struct e} : Prop :=
     let all := fix all (l : list expr) : Prop :=
@@ -82,8 +82,8 @@ Section Flags.
         (removable = true -> pure_here (EDot t name oc removable symInst)) /\
         (symInst = true -> sym_here (EDot t name oc removable symInst)) /\ flags_ok t
     | EIndex t i _ => flags_ok t /\ flags_ok i
-    | ECall t args _ pure => (pure = true -> pure_callee (w_call W) t) /\ flags_ok t /\ all args
-    | ENew t args pure => (pure = true -> pure_callee (w_new W) t) /\ flags_ok t /\ all args
+    | ECall t args oc pure => (pure = true -> pure_callee (w_call W) oc t) /\ flags_ok t /\ all args
+    | ENew t args pure => (pure = true -> pure_callee (w_new W) 0 t) /\ flags_ok t /\ all args
     | EUn op v w => (op = UTypeof -> w = true -> exists r c m, v = EId r c m) /\ flags_ok v
     | EBin _ l r => flags_ok l /\ flags_ok r
     | EIf t y n => flags_ok t /\ flags_ok y /\ flags_ok n
